@@ -110,6 +110,22 @@ def loop_scenario(ctx, n, dd, ad, cc=None, kind=None):
     return sc
 
 
+def outage_scenario(ctx):
+    """A long outage: seventeen consecutive data transmissions are lost (the timer of one segment backs off sixteen times,
+    up to 2**17 s); everything must still get through in the end."""
+    rng = ctx.rng
+    n = rng.choice([2, 3, 4])
+    k = rng.randint(1, n)
+    sc = loop_scenario(ctx, n, list(range(k, k + 17)), [], cc=rng.choice(["reno", "cubic"]), kind="slow")
+    for key in ("path", "fj", "rj", "finish", "finish_at"):
+        sc.pop(key, None)
+    sc["fwd"], sc["rev"] = rng.choice(LAT), rng.choice(LAT)
+    sc["cap"] = 400
+    sc["rtt0"] = rng.choice([[1, 4], [1, 2], [1, 1]])        # first RTO at most 2 s: seventeen doublings stay below the horizon
+    sc["until"] = 3000000
+    return sc
+
+
 def patterns(maxidx, maxd, maxa):
     idx = range(1, maxidx + 1)
     ds = [c for k in range(maxd + 1) for c in itertools.combinations(idx, k)]
@@ -291,6 +307,9 @@ def build(ctx, arrs, pats):
     for _ in range(500 if q else 20000):
         dd, ad = random_pattern(ctx, 12 if q else 16, 3, 3)
         scs.append(loop_scenario(ctx, rng.randint(1, 10), dd, ad, kind=rng.choice([None, None, None, "tiny"])))
+    # long outages: one segment is lost seventeen times in a row
+    for _ in range(20 if q else 300):
+        scs.append(outage_scenario(ctx))
     # the loss-free class, RTT below and not below the RTO
     for _ in range(150 if q else 3000):
         scs.append(loop_scenario(ctx, rng.randint(1, 12), [], [], kind=rng.choice(["slow", "slow", "fast", "tiny"])))
